@@ -347,9 +347,10 @@ Init ==
   /\ phase = "gen"
   /\ \/ \E n \in 1..NP : \E xs \in [1..n -> 0..C] : \E on \in [1..n -> {0, 1}] : u = <<"ct", xs, on>>
      \/ \E xs \in [1..3 -> 0..C] : \E ds \in [1..3 -> DSET] : \E m \in [1..3 -> BOOLEAN] :
-          \E ti \in 1..Len(GvTents) : \E li \in 1..Len(GvUser) : u = <<"gv", xs, ds, m, ti, li>>
+          \E ti \in 1..Len(GvTents) : \E li \in 1..Len(GvUser) :
+             (DSEL # 1 \/ ds[2] = 2) /\ u = <<"gv", xs, ds, m, ti, li>>
      \/ \E t1 \in 1..Len(CpTr) : \E o1 \in 1..3 : \E f1 \in 1..4 : \E t2 \in 1..Len(CpTr) : \E o2 \in 1..3 : \E f2 \in 1..4 :
-          \E um \in 0..1 : \E dl \in 0..1 : \E li \in 0..2 : u = <<"cp", t1, o1, f1, t2, o2, f2, um, dl, li>>
+          \E um \in 0..1 : \E dl \in 0..1 : \E li \in 0..(IF dl = 0 THEN 0 ELSE 2) : u = <<"cp", t1, o1, f1, t2, o2, f2, um, dl, li>>
      \/ \E ti \in 1..Len(CpTr) : \E a1 \in 0..4 : \E a2 \in 0..4 : u = <<"pm", ti, a1, a2>>
      \/ \E g \in 1..4 : \E mi \in 1..3 : \E li \in 0..4 : u = <<"hv", g, mi, li>>
      \/ \E ti \in 1..Len(AvTriples) : \E mi \in 1..Len(AvMaps) : \E ui \in 1..Len(AvUsers) : u = <<"av", ti, mi, ui>>
